@@ -224,15 +224,14 @@ func (f *StreamForwarder) forwardAcks(wg *sync.WaitGroup) {
 		defer f.logger.Info("proxyStreamForwarder forwardAck finished")
 		f.shutdownChan.Shutdown()
 		var err error
-		closeSent := make(chan struct{})
+		// Buffered: if CloseSend only returns after the timeout, its goroutine must still be able to finish
+		closeSent := make(chan error, 1)
 		go func() {
-			err = f.sourceStreamClient.CloseSend()
-			closeSent <- struct{}{}
+			closeSent <- f.sourceStreamClient.CloseSend()
 		}()
 		timeout := time.After(time.Second)
 		select {
-		case <-closeSent:
-			break
+		case err = <-closeSent:
 		case <-timeout:
 			err = fmt.Errorf("timed out waiting for source stream to close")
 		}
